@@ -388,3 +388,70 @@ def success_sites(body):
         if d[0] == 'call' and not d[2].callee.endswith('FromResidual::from_residual'):
             out.append((d[1], None))
     return out
+
+
+_FLIPOP = {'lt': 'gt', 'gt': 'lt', 'le': 'ge', 'ge': 'le', 'eq': 'eq', 'ne': 'ne'}
+
+
+def cmp_lits(lits, v, ops, other_pred):
+    """literals `v op X` with op in ops and other_pred(X), whichever side v was written on (`X flipped-op v` counts)"""
+    out = []
+    for l, e in lits:
+        if l[0] != 'cmp':
+            continue
+        if l[2] == v and l[1] in ops and other_pred(l[3]):
+            out.append(l)
+        elif l[3] == v and _FLIPOP.get(l[1]) in ops and other_pred(l[2]):
+            out.append(l)
+    return out
+
+
+def local_bool_outcomes(body, F, local, value):
+    """like bool_fn_outcomes, for a boolean local of `body`: one literal list per definition that can make it `value`"""
+    out = []
+    for d in body.defs().get(local, []):
+        if d[0] == 'stmt':
+            rv = d[3]
+            base = [l for l, e in F.literals_at(d[1], d[2])]
+            if rv[0] == 'use' and rv[1][0] == 'k':
+                if (rv[1][1] in ('1', 'true')) == value:
+                    out.append(base)
+            else:
+                out.append(base + list(F._truth(F.sym_rvalue(rv, 0, d[1]), value)))
+        elif d[0] == 'call':
+            out.append([l for l, e in F.literals_at(d[1])] + list(F._truth(F.sym_call(d[2]), value)))
+    return out
+
+
+def order_fact(body, lit):
+    """normalise an ordering literal to (left text, rel, right text) with rel in < <= > >=, reading both the primitive form
+    (cmp) and calls of PartialOrd::lt/le/gt/ge with their truth value; None for anything else"""
+    from .facts import fmt_sym
+    REL = {'lt': '<', 'le': '<=', 'gt': '>', 'ge': '>='}
+    NEGR = {'<': '>=', '<=': '>', '>': '<=', '>=': '<'}
+    if lit[0] == 'cmp' and lit[1] in REL:
+        return fmt_sym(body, lit[2]), REL[lit[1]], fmt_sym(body, lit[3])
+    if lit[0] == 'truth' and lit[1][0] == 'call' and len(lit[1][2]) == 2:
+        m = lit[1][1].rsplit('::', 1)[-1]
+        if lit[1][1].endswith(('PartialOrd::' + m,)) and m in REL:
+            a, b = lit[1][2]
+            strip = lambda s: s[1] if s[0] == 'ref' else s
+            rel = REL[m] if lit[2] else NEGR[REL[m]]
+            return fmt_sym(body, strip(a)), rel, fmt_sym(body, strip(b))
+    return None
+
+
+def holds_order(body, lits, left_rx, rel, right_rx):
+    """is `L rel R` (or its mirror image `R rel' L`) among the literals, for texts matching the two patterns?"""
+    import re as _re
+    MIR = {'<': '>', '<=': '>=', '>': '<', '>=': '<='}
+    for l in lits:
+        f = order_fact(body, l)
+        if not f:
+            continue
+        a, r_, b = f
+        if r_ == rel and _re.search(left_rx, a) and _re.search(right_rx, b):
+            return True
+        if r_ == MIR[rel] and _re.search(left_rx, b) and _re.search(right_rx, a):
+            return True
+    return False
